@@ -155,6 +155,7 @@ class Check(PropertyCheck):
                 with open(p, "w") as f: f.write(STUB)
                 os.chmod(p, 0o755)
         self.tmp = tempfile.mkdtemp(prefix="run-", dir=os.path.join(WORK, "c48"))
+        self.known_selftest()
 
     def _ctx(self):
         if Check._tctx is None:
@@ -462,23 +463,77 @@ class Check(PropertyCheck):
 
     # ------------------------------------------------------------------ known findings
     def known(self, case, obs, failure):
-        if not failure.startswith("curl/") or ": body: " not in failure: return None
+        """A failure is an instance of a recorded finding only if BOTH the input is in the finding's input class AND the failure
+        is the recorded one: the body clause of a curl export, under the recorded shell, with the received -d value being
+        exactly what the recorded mechanism produces.  Everything is read off the export step the failure message names."""
+        import re as _re
+        m = _re.match(r"curl/(sh|bash): body: ", failure)
+        if not m: return None
+        sh = m.group(1)
         tb = self._text_body(case, obs)
         if tb is None: return None
-        sh = failure[5:failure.index(":")]
-        if "starts with '@'" in failure:
-            return "F-C48c" if tb.startswith(b"@") else None
-        r = obs["curl"][sh]
+        ms = _re.search(r" \[export #(\d+) of ", failure)
+        idx = int(ms.group(1)) - 1 if ms else 0
+        if idx >= len(obs["seq"]) or obs["seq"][idx]["fmt"] != "curl": return None
+        o = obs["seq"][idx]["o"]
+        r = o.get(sh)
+        if not r or not r["parse_ok"] or len(r["inv"]) != 1 or r["rc"] != 0 or r["stderr"]: return None
         got = self._curl_semantics([unhx(x) for x in r["inv"][0]])["data"]
         has_ctl = any(c < 32 for c in tb)
-        if not has_ctl: return None
+        if "-d value starts with '@', curl reads it as a file name" in failure:
+            # F-C48c: body starts with '@' and the argv value is the body itself (exact)
+            return "F-C48c" if tb.startswith(b"@") and got == tb else None
+        if not _re.match(r"curl/(sh|bash): body: -d value .* != content ", failure): return None
+        if not has_ctl or got is None: return None
         if sh == "sh":
-            # dash's printf does not know \xHH: every control byte arrives as the four characters \xHH
+            # F-C48d: dash's printf does not know \xHH: every control byte arrives as the four characters \xHH, rest exact
             want = b"".join(b"\\x%02x" % c if c < 32 else bytes([c]) for c in tb)
-            return "F-C48d" if got == want else None
-        if tb.endswith(b"\n") and got == tb.rstrip(b"\n"):
+            return "F-C48d" if got == want and got != tb else None
+        if sh == "bash" and tb.endswith(b"\n") and got == tb.rstrip(b"\n"):
+            # F-C48b: only the trailing newline(s) are missing
             return "F-C48b"
         return None
+
+    def known_selftest(self):
+        """positive witness + near misses per finding: (body, shell, value the stub received, failure text, expected id)"""
+        def fake(body, sh, got, step=0, fmt="curl"):
+            case = {"content_hex": hx(body)}
+            run = {"rc": 0, "stderr": "", "parse_ok": True, "stdin": None, "mode": "fn",
+                   "inv": [[hx(b"curl"), hx(b"-X"), hx(b"POST"), hx(b"http://h/")] + ([hx(b"-d"), hx(got)] if got is not None else [])]}
+            seq = [{"fmt": "raw", "raw_hex": "-", "changed": False}] * step + [{"fmt": fmt, "o": {"cmd_hex": "-", sh: run}, "changed": False}]
+            return case, {"text_hex": hx(body), "clean_content_hex": hx(body), "seq": seq}
+        tag = lambda n: "" if n == 0 else f" [export #{n + 1} of x on the same flow]"
+        neq = lambda sh, got, body, n=0: f"curl/{sh}: body: -d value {got!r} != content {body!r}" + tag(n)
+        at = lambda sh, n=0: f"curl/{sh}: body: -d value starts with '@', curl reads it as a file name" + tag(n)
+        T = []
+        # F-C48b
+        T += [(b"line\n", "bash", b"line", neq("bash", b"line", b"line\n"), "F-C48b"),
+              (b"a\tb\n\n", "bash", b"a\tb", neq("bash", b"a\tb", b"a\tb\n\n"), "F-C48b"),
+              (b"line\n", "bash", b"lin", neq("bash", b"lin", b"line\n"), None),                       # same input, other damage
+              (b"line\n", "bash", b"line", "curl/bash: method sent by curl is b'GET', request has b'POST'", None),   # other clause
+              (b"line", "bash", b"lin", neq("bash", b"lin", b"line"), None),                            # outside the class
+              (b"a\x01b", "bash", b"ab", neq("bash", b"ab", b"a\x01b"), None)]                          # control char lost, no newline
+        # F-C48c
+        T += [(b"@/etc/hostname", "sh", b"@/etc/hostname", at("sh"), "F-C48c"),
+              (b"@/etc/hostname", "bash", b"@/etc/hostname", at("bash"), "F-C48c"),
+              (b"@x", "bash", b"x", neq("bash", b"x", b"@x"), None),                                    # same input, value damaged
+              (b"x@", "bash", b"x@", at("bash"), None),                                                # '@' not leading
+              (b"@x", "bash", b"@x", "curl/bash: url arguments [] != one of []", None)]
+        # F-C48d
+        T += [(b"a\x01b", "sh", b"a\\x01b", neq("sh", b"a\\x01b", b"a\x01b"), "F-C48d"),
+              (b"l\n", "sh", b"l\\x0a", neq("sh", b"l\\x0a", b"l\n"), "F-C48d"),
+              (b"a\x01b", "sh", b"a", neq("sh", b"a", b"a\x01b"), None),                               # same input, other damage
+              (b"a\x01b", "bash", b"a\\x01b", neq("bash", b"a\\x01b", b"a\x01b"), None),              # bash must decode \x
+              (b"plain", "sh", b"plai", neq("sh", b"plai", b"plain"), None),                            # no control character
+              (b"a\x01%", "sh", b"a\\x01", neq("sh", b"a\\x01", b"a\x01%"), None)]                   # '%' lost as well
+        # a later export of the sequence is judged on its own step
+        case, obs = fake(b"line\n", "bash", b"line", step=1)
+        assert self.known(case, obs, neq("bash", b"line", b"line\n", 1)) == "F-C48b"
+        assert self.known(case, obs, neq("bash", b"line", b"line\n", 0)) is None       # step 0 of that sequence is a raw export
+        for body, sh, got, failure, want in T:
+            case, obs = fake(body, sh, got)
+            res = self.known(case, obs, failure)
+            assert res == want, f"known() selftest: body={body!r} shell={sh} got={got!r} failure={failure!r}: {res} != {want}"
 
     # ------------------------------------------------------------------ model tie
     def _answers(self, case):
